@@ -41,7 +41,7 @@ package p9
 //@ func chunk
 //@   requires[C11] chunkSize >= 1
 //@   requires[C11] ghost("$sum", int) == 0 && ghost("$allfull", bool) && ghost("$lasterr", error) == nil && ncalls("fn") == 0
-//@   modifies $sum, $allfull, $lasterr, $ncalls, $n.fn
+//@   modifies $sum, $allfull, $lasterr
 //@   at fn requires[C11] @offset-follows-data arg1 == offset0 + int64(ghost("$sum", int))
 //@   at fn requires[C11] @chunk-is-next-window arr(arg0) == arr(p) && off(arg0) == off(p) + ghost("$sum", int) && len(arg0) == min(int(chunkSize), len(p) - ghost("$sum", int))
 //@   at fn requires[C11] @within-payload-limit len(arg0) <= int(chunkSize)
@@ -110,16 +110,21 @@ package p9
 //@   requires[C04] @table-has-no-nil Ifid(cs)
 //@   nopanic
 
-//@ define Ifid(cs *connState) bool = forall(k, fid, has(cs.fids, k) ==> cs.fids[k] != nil)
+//@ define Ifid(cs *connState) bool = forall(k, fid, has(cs.fids, k) ==> cs.fids[k] != nil && cs.fids[k].server == cs.server)
+// path nodes: no nil child, no node is its own child (locking child after parent is acyclic)
+//@ define Inodes() bool = forall(pn, *pathNode, forall(k, string, has(pn.childNodes, k) ==> pn.childNodes[k] != nil && pn.childNodes[k] != pn))
+// references: a child belongs to its parent's server; a live path lies below live paths only
+//@ define Irefs() bool = forall(r, *fidRef, r != nil && r.parent != nil ==> r.parent.server == r.server && (!fenced(r) ==> !fenced(r.parent)))
 //@ define sameFids(cs *connState) bool = forall(k, fid, has(cs.fids, k) == old(has(cs.fids, k)) && cs.fids[k] == old(cs.fids[k]))
 //@ define isErr(m message, no linux.Errno) bool = typeis(m, *rlerror) && unbox(m, *rlerror).Error == uint32(no)
 //@ define nocalls() bool = ncalls() == old(ncalls())
+//@ define isEOF(e error) bool = errorsIs(e, io.EOF)
 // every name registered in the path tree is a safe path component
 //@ define InamesSafe() bool = forall(pn, *pathNode, forall(r, *fidRef, has(pn.childRefNames, r) ==> safe(pn.childRefNames[r])))
 
 //@ func (*connState).InsertFID
 //@   requires[C15,C16] held(cs.fidMu) == 0
-//@   requires[C04] newRef != nil
+//@   requires[C04] newRef != nil && newRef.server == cs.server
 //@   requires[C04] Ifid(cs)
 //@   ensures[C04] Ifid(cs)
 //@   requires[C09] InamesSafe()
@@ -308,13 +313,15 @@ package p9
 //@   maypanic
 
 // ---- path tree (C08, C16): loop-free operations ------------------------------
+//@ inline newPathNode
 //@ func (*pathNode).pathNodeFor
 //@   requires[C15,C16] held(p.childMu) == 0
-//@   modifies mapof(p.childNodes), $allocs
-//@   ensures[C07,C08] @registered has(p.childNodes, name) && result == p.childNodes[name] && result != nil
+//@   requires[C07,C08,C16] Inodes()
+//@   ensures[C07,C08,C16] Inodes()
+//@   modifies mapof(p.childNodes)
+//@   ensures[C07,C08,C16] @registered has(p.childNodes, name) && result == p.childNodes[name] && result != nil && result != p
 //@   ensures[C08] @others-unchanged forall(k, string, k != name ==> has(p.childNodes, k) == old(has(p.childNodes, k)) && p.childNodes[k] == old(p.childNodes[k]))
 //@   ensures[C08] @existing-kept old(has(p.childNodes, name)) ==> result == old(p.childNodes[name])
-//@   requires[C08] @no-nil-node forall(k, string, has(p.childNodes, k) ==> p.childNodes[k] != nil)
 //@   nopanic
 
 // ---- handlers -----------------------------------------------------------------
@@ -328,6 +335,10 @@ package p9
 //@   nopanic
 
 //@ group handlerBase
+//@   requires[C07,C08,C16] Inodes()
+//@   ensures[C07,C08,C16] @tree-nodes-invariant Inodes()
+//@   requires[C07,C08] Irefs()
+//@   ensures[C07,C08] @refs-invariant Irefs()
 //@   requires[C15,C16] nolocks()
 //@   requires[C09] InamesSafe()
 //@   ensures[C09] @names-stay-safe InamesSafe()
@@ -336,6 +347,20 @@ package p9
 //@   ensures[C15] @locks-released nolocks()
 //@   panic_ensures[C15] @locks-released-on-panic nolocks()
 //@   ensures[C04] @table-invariant Ifid(cs)
+
+// helpers called by handlers get a precise frame instead of "*": reference
+// counts and path-tree registrations (DecRef), the backend call log
+//@ group helperFrame
+//@   requires[C07,C08,C16] Inodes()
+//@   requires[C07,C08] Irefs()
+//@   requires[C15,C16] nolocks()
+//@   requires[C09] InamesSafe()
+//@   ensures[C09] @names-stay-safe InamesSafe()
+//@   panic_ensures[C09] InamesSafe()
+//@   requires[C04] Ifid(cs)
+//@   modifies type:fidRef.refs, maps(map[*fidRef]string), maps(map[string]map[*fidRef]struct{}), maps(map[*fidRef]struct{}), $ncalls, $n.*, $lasterr, $ret.*
+//@   ensures[C15] @locks-released nolocks()
+//@   panic_ensures[C15] @locks-released-on-panic nolocks()
 
 // directory operations that never change the fid table
 //@ group dirOpRows
@@ -484,6 +509,10 @@ package p9
 //@   requires[C07,C08] @entry-quiesced globalLocked(f) || (held(f.server.renameMu) >= 1 && held(f.pathNode.opMu) == -1)
 //@   requires[C09] InamesSafe()
 //@   ensures[C09] InamesSafe()
+//@   requires[C07,C08,C16] Inodes()
+//@   ensures[C07,C08,C16] Inodes()
+//@   requires[C07,C08] Irefs()
+//@   ensures[C07,C08] Irefs()
 //@   modifies type:pathNode.deleted, maps(map[string]*pathNode), maps(map[*fidRef]string), maps(map[string]map[*fidRef]struct{}), maps(map[*fidRef]struct{})
 //@ func (*fidRef).renameChildTo
 //@   abstract
@@ -492,6 +521,12 @@ package p9
 //@   requires[C09] InamesSafe()
 //@   ensures[C09] InamesSafe()
 //@   panic_ensures[C09] InamesSafe()
+//@   requires[C07,C08,C16] Inodes()
+//@   ensures[C07,C08,C16] Inodes()
+//@   panic_ensures[C07,C08,C16] Inodes()
+//@   requires[C07,C08] Irefs()
+//@   ensures[C07,C08] Irefs()
+//@   panic_ensures[C07,C08] Irefs()
 //@   modifies type:pathNode.deleted, type:fidRef.parent, type:fidRef.refs, maps(map[string]*pathNode), maps(map[*fidRef]string), maps(map[string]map[*fidRef]struct{}), maps(map[*fidRef]struct{}), $n.File.Renamed, $n.File.Close, $ncalls
 //@   maypanic
 
@@ -531,3 +566,129 @@ package p9
 //@   ensures[C04] @unbound-fid-ebadf safe(old(t.Name)) && !old(has(cs.fids, t.fid)) ==> isErr(result, linux.EBADF) && nocalls() && sameFids(cs)
 //@   ensures[C04,C15] @error-leaves-table typeis(result, *rlerror) ==> sameFids(cs)
 //@   ensures[C15] @backend-error-reported ncalls() > old(ncalls()) && ghost("$lasterr", error) != nil ==> isErr(result, errno(ghost("$lasterr", error)))
+
+// ---- read / write / readdir ------------------------------------------------------
+// Assumption (O2 in DESIGN.md): the read-buffer pool of a connection hands out
+// buffers of exactly the negotiated msize (tversion.handle installs such a
+// pool; Tversion is not pipelined with other requests).
+//@ func (*tread).handle
+//@   use handlerBase dirOpRows
+//@   at (*sync.Pool).Get assume typeis(ret0, *[]byte) && unbox(ret0, *[]byte) != nil && len(*unbox(ret0, *[]byte)) == int(cs.messageSize)
+//@   requires[C13] cs.messageSize <= maximumLength
+//@   ensures[C06] @reply-type typeis(result, *rreadServerPayloader) || typeis(result, *rlerror)
+//@   ensures[C04] @unbound-fid-ebadf !old(has(cs.fids, t.fid)) ==> isErr(result, linux.EBADF) && nocalls()
+//@   ensures[C04] @unopened-einval old(has(cs.fids, t.fid)) && int(old(t.Count)) <= int(maximumLength) && old(cs.fids[t.fid].pendingXattr.op) == xattrNone && !old(cs.fids[t.fid].opened) ==> isErr(result, linux.EINVAL) && nocalls()
+//@   ensures[C04] @write-only-eperm old(has(cs.fids, t.fid)) && int(old(t.Count)) <= int(maximumLength) && old(cs.fids[t.fid].pendingXattr.op) == xattrNone && old(cs.fids[t.fid].opened) && old(cs.fids[t.fid].openFlags)&OpenFlagsModeMask == WriteOnly ==> isErr(result, linux.EPERM) && nocalls()
+//@   ensures[C04] @xattr-fid-no-backend old(has(cs.fids, t.fid)) && old(cs.fids[t.fid].pendingXattr.op) != xattrNone ==> nocalls()
+//@   at File.ReadAt requires[C03] @forwards recv == old(cs.fids[t.fid]).file && len(arg0) == int(old(t.Count)) && arg1 == int64(old(t.Offset))
+//@   ensures[C13] @frame-le-msize typeis(result, *rreadServerPayloader) ==> 7 + 4 + len(unbox(result, *rreadServerPayloader).Data) <= int(cs.messageSize)
+//@   ensures[C13,C18] @data-le-count typeis(result, *rreadServerPayloader) ==> len(unbox(result, *rreadServerPayloader).Data) <= int(old(t.Count))
+//@   ensures[C15] @backend-error-reported ncalls() > old(ncalls()) && ghost("$lasterr", error) != nil && !isEOF(ghost("$lasterr", error)) ==> isErr(result, errno(ghost("$lasterr", error)))
+
+//@ func (*twrite).handle
+//@   use handlerBase dirOpRows
+//@   ensures[C06] @reply-type typeis(result, *rwrite) || typeis(result, *rlerror)
+//@   ensures[C04] @unbound-fid-ebadf !old(has(cs.fids, t.fid)) ==> isErr(result, linux.EBADF) && nocalls()
+//@   ensures[C04] @unopened-einval old(has(cs.fids, t.fid)) && old(cs.fids[t.fid].pendingXattr.op) == xattrNone && !old(cs.fids[t.fid].opened) ==> isErr(result, linux.EINVAL) && nocalls()
+//@   ensures[C04] @read-only-eperm old(has(cs.fids, t.fid)) && old(cs.fids[t.fid].pendingXattr.op) == xattrNone && old(cs.fids[t.fid].opened) && old(cs.fids[t.fid].openFlags)&OpenFlagsModeMask == ReadOnly ==> isErr(result, linux.EPERM) && nocalls()
+//@   ensures[C04] @xattr-fid-no-backend old(has(cs.fids, t.fid)) && old(cs.fids[t.fid].pendingXattr.op) != xattrNone ==> nocalls()
+//@   ensures[C04] @xattr-walk-fid-einval old(has(cs.fids, t.fid)) && old(cs.fids[t.fid].pendingXattr.op) == xattrWalk ==> isErr(result, linux.EINVAL)
+//@   at File.WriteAt requires[C03] @forwards recv == old(cs.fids[t.fid]).file && arg0 == old(t.Data) && arg1 == int64(old(t.Offset))
+//@   ensures[C03] @returns-backend-count typeis(result, *rwrite) && ncalls() > old(ncalls()) ==> unbox(result, *rwrite).Count == uint32(ghost("$ret.n", int))
+//@   ensures[C15] @backend-error-reported ncalls() > old(ncalls()) && ghost("$lasterr", error) != nil ==> isErr(result, errno(ghost("$lasterr", error)))
+
+//@ func (*treaddir).handle
+//@   use handlerBase dirOpRows
+//@   ensures[C06] @reply-type typeis(result, *rreaddir) || typeis(result, *rlerror)
+//@   ensures[C04] @unbound-fid-ebadf !old(has(cs.fids, t.Directory)) ==> isErr(result, linux.EBADF) && nocalls()
+//@   ensures[C04] @unopened-einval old(has(cs.fids, t.Directory)) && !old(cs.fids[t.Directory].opened) ==> isErr(result, linux.EINVAL) && nocalls()
+//@   ensures[C04] @not-a-dir-einval old(has(cs.fids, t.Directory)) && !FileMode.IsDir(old(cs.fids[t.Directory].mode)) ==> isErr(result, linux.EINVAL) && nocalls()
+//@   ensures[C08] @fenced-refused old(has(cs.fids, t.Directory)) && old(fenced(cs.fids[t.Directory])) ==> isErr(result, linux.EINVAL) && nocalls()
+//@   at File.Readdir requires[C03,C19] @forwards recv == old(cs.fids[t.Directory]).file && arg0 == old(t.Offset) && arg1 == old(t.Count)
+//@   ensures[C13,C19] @count-passed-to-encoder typeis(result, *rreaddir) ==> unbox(result, *rreaddir).Count == old(t.Count)
+//@   ensures[C15] @backend-error-reported ncalls() > old(ncalls()) && ghost("$lasterr", error) != nil && !isEOF(ghost("$lasterr", error)) ==> isErr(result, errno(ghost("$lasterr", error)))
+
+//@ func (*txattrcreate).handle
+//@   use handlerBase dirOpRows
+//@   ensures[C06] @reply-type typeis(result, *rxattrcreate) || typeis(result, *rlerror)
+//@   ensures[C04] @unbound-fid-ebadf !old(has(cs.fids, t.fid)) ==> isErr(result, linux.EBADF)
+//@   ensures[C04,C03] @no-backend-call nocalls()
+//@   ensures[C08] @fenced-refused old(has(cs.fids, t.fid)) && old(fenced(cs.fids[t.fid])) ==> isErr(result, linux.EINVAL)
+//@   ensures[C04] @arms-write-subprotocol typeis(result, *rxattrcreate) ==> old(cs.fids[t.fid]).pendingXattr.op == xattrCreate && old(cs.fids[t.fid]).pendingXattr.size == old(t.AttrSize) && len(old(cs.fids[t.fid]).pendingXattr.buf) == 0
+
+//@ func (*txattrwalk).handle
+//@   use handlerBase
+//@   ensures[C06] @reply-type typeis(result, *rxattrwalk) || typeis(result, *rlerror)
+//@   ensures[C04] @unbound-fid-ebadf !old(has(cs.fids, t.fid)) ==> isErr(result, linux.EBADF) && nocalls() && sameFids(cs)
+//@   ensures[C04,C15] @binds-only-on-success typeis(result, *rlerror) ==> sameFids(cs)
+//@   ensures[C04] @success-binds-newfid typeis(result, *rxattrwalk) ==> has(cs.fids, old(t.newFID)) && cs.fids[old(t.newFID)].pendingXattr.op == xattrWalk
+//@   ensures[C04] @other-fids-unchanged forall(k, fid, k != old(t.newFID) ==> has(cs.fids, k) == old(has(cs.fids, k)) && cs.fids[k] == old(cs.fids[k]))
+//@   ensures[C08] @fenced-refused old(has(cs.fids, t.fid)) && old(fenced(cs.fids[t.fid])) ==> isErr(result, linux.EINVAL) && nocalls()
+//@   at File.GetXattr requires[C03] @forwards recv == old(cs.fids[t.fid]).file && arg0 == old(t.Name)
+//@   at File.ListXattrs requires[C03] @forwards recv == old(cs.fids[t.fid]).file
+//@   ensures[C15] @backend-error-reported ncalls() > old(ncalls()) && ghost("$lasterr", error) != nil ==> isErr(result, errno(ghost("$lasterr", error)))
+
+// ---- clunk / remove: always unbind ----------------------------------------------
+//@ func clunkHandleXattr
+//@   use helperFrame
+//@   ensures[C04] @nil-or-error result == nil || typeis(result, *rlerror)
+//@   ensures[C04] @plain-fid-no-backend old(has(cs.fids, t.fid)) && old(cs.fids[t.fid].pendingXattr.op) != xattrCreate ==> nocalls() && result == nil
+//@   ensures[C04] @unbound-no-backend !old(has(cs.fids, t.fid)) ==> nocalls()
+
+//@ func (*tclunk).handle
+//@   use handlerBase
+//@   ensures[C06] @reply-type typeis(result, *rclunk) || typeis(result, *rlerror)
+//@   ensures[C04,C15] @always-unbinds !has(cs.fids, old(t.fid))
+//@   ensures[C04] @other-fids-unchanged forall(k, fid, k != old(t.fid) ==> has(cs.fids, k) == old(has(cs.fids, k)) && cs.fids[k] == old(cs.fids[k]))
+//@   ensures[C04] @unbound-fid-ebadf !old(has(cs.fids, t.fid)) ==> isErr(result, linux.EBADF) && nocalls()
+//@   ensures[C04] @plain-clunk-ok old(has(cs.fids, t.fid)) && old(cs.fids[t.fid].pendingXattr.op) != xattrCreate ==> nocalls()
+
+//@ func (*tremove).handle
+//@   use handlerBase
+//@   ensures[C06] @reply-type typeis(result, *rremove) || typeis(result, *rlerror)
+//@   ensures[C04,C15] @always-unbinds !has(cs.fids, old(t.fid))
+//@   ensures[C04] @other-fids-unchanged forall(k, fid, k != old(t.fid) ==> has(cs.fids, k) == old(has(cs.fids, k)) && cs.fids[k] == old(cs.fids[k]))
+//@   ensures[C04] @unbound-fid-ebadf !old(has(cs.fids, t.fid)) ==> isErr(result, linux.EBADF) && nocalls()
+//@   ensures[C04] @root-refused old(has(cs.fids, t.fid)) && old(cs.fids[t.fid].parent) == nil ==> typeis(result, *rlerror) && nocalls()
+//@   ensures[C08] @fenced-refused old(has(cs.fids, t.fid)) && old(cs.fids[t.fid].parent) != nil && old(fenced(cs.fids[t.fid])) ==> typeis(result, *rlerror) && nocalls()
+//@   at File.UnlinkAt requires[C03,C08] @parent-and-current-name recv == old(cs.fids[t.fid].parent).file && arg0 == old(cs.fids[t.fid].parent.pathNode.childRefNames[cs.fids[t.fid]]) && arg1 == 0
+//@   at (*fidRef).markChildDeleted requires[C08] @fences-only-after-success ghost("$lasterr", error) == nil && ncalls("File.UnlinkAt") == old(ncalls("File.UnlinkAt")) + 1
+//@   ensures[C15] @backend-error-reported ncalls() > old(ncalls()) && ghost("$lasterr", error) != nil ==> typeis(result, *rlerror)
+
+// ---- rename / unlink ---------------------------------------------------------------
+//@ func (*tunlinkat).handle
+//@   use handlerBase dirOpRows
+//@   ensures[C06] @reply-type typeis(result, *runlinkat) || typeis(result, *rlerror)
+//@   ensures[C09] @unsafe-name-einval !safe(old(t.Name)) ==> isErr(result, linux.EINVAL) && nocalls()
+//@   ensures[C04] @unbound-fid-ebadf safe(old(t.Name)) && !old(has(cs.fids, t.Directory)) ==> isErr(result, linux.EBADF) && nocalls()
+//@   ensures[C04] @opened-dir-refused old(has(cs.fids, t.Directory)) && old(cs.fids[t.Directory].opened) ==> typeis(result, *rlerror) && nocalls()
+//@   ensures[C04] @not-a-dir-refused old(has(cs.fids, t.Directory)) && !FileMode.IsDir(old(cs.fids[t.Directory].mode)) ==> typeis(result, *rlerror) && nocalls()
+//@   ensures[C08] @fenced-refused safe(old(t.Name)) && old(has(cs.fids, t.Directory)) && old(fenced(cs.fids[t.Directory])) ==> isErr(result, linux.EINVAL) && nocalls()
+//@   at File.UnlinkAt requires[C03] @forwards recv == old(cs.fids[t.Directory]).file && arg0 == old(t.Name) && arg1 == old(t.Flags)
+//@   at (*fidRef).markChildDeleted requires[C08] @fences-only-after-success ghost("$lasterr", error) == nil && ncalls("File.UnlinkAt") == old(ncalls("File.UnlinkAt")) + 1 && arg0 == old(t.Name) && recv == old(cs.fids[t.Directory])
+//@   ensures[C08] @success-fences typeis(result, *runlinkat) ==> ncalls("(*fidRef).markChildDeleted") == 1
+//@   ensures[C15] @backend-error-reported ncalls() > old(ncalls()) && ghost("$lasterr", error) != nil ==> isErr(result, errno(ghost("$lasterr", error)))
+
+//@ func (*trenameat).handle
+//@   use handlerBase dirOpRows
+//@   ensures[C06] @reply-type typeis(result, *rrenameat) || typeis(result, *rlerror)
+//@   ensures[C09] @unsafe-old-name-einval !safe(old(t.OldName)) ==> isErr(result, linux.EINVAL) && nocalls()
+//@   ensures[C09] @unsafe-new-name-einval !safe(old(t.NewName)) ==> isErr(result, linux.EINVAL) && nocalls()
+//@   ensures[C04] @unbound-olddir-ebadf safe(old(t.OldName)) && safe(old(t.NewName)) && !old(has(cs.fids, t.OldDirectory)) ==> isErr(result, linux.EBADF) && nocalls()
+//@   ensures[C04] @unbound-newdir-ebadf safe(old(t.OldName)) && safe(old(t.NewName)) && !old(has(cs.fids, t.NewDirectory)) ==> isErr(result, linux.EBADF) && nocalls()
+//@   ensures[C04] @opened-dir-refused old(has(cs.fids, t.OldDirectory)) && old(has(cs.fids, t.NewDirectory)) && old(cs.fids[t.OldDirectory].opened) ==> typeis(result, *rlerror) && nocalls()
+//@   ensures[C08] @fenced-refused old(has(cs.fids, t.OldDirectory)) && old(has(cs.fids, t.NewDirectory)) && (old(fenced(cs.fids[t.OldDirectory])) || old(fenced(cs.fids[t.NewDirectory]))) ==> typeis(result, *rlerror) && nocalls()
+//@   at File.RenameAt requires[C03] @forwards recv == old(cs.fids[t.OldDirectory]).file && arg0 == old(t.OldName) && arg1 == old(cs.fids[t.NewDirectory]).file && arg2 == old(t.NewName)
+//@   at (*fidRef).renameChildTo requires[C08] @tree-updated-only-after-success ghost("$lasterr", error) == nil && ncalls("File.RenameAt") == old(ncalls("File.RenameAt")) + 1 && recv == old(cs.fids[t.OldDirectory]) && arg0 == old(t.OldName) && arg1 == old(cs.fids[t.NewDirectory]) && arg2 == old(t.NewName)
+//@   ensures[C15] @backend-error-reported ncalls("File.RenameAt") > old(ncalls("File.RenameAt")) && ncalls("(*fidRef).renameChildTo") == 0 ==> isErr(result, errno(ghost("$lasterr", error)))
+
+//@ func (*trename).handle
+//@   use handlerBase dirOpRows
+//@   ensures[C06] @reply-type typeis(result, *rrename) || typeis(result, *rlerror)
+//@   ensures[C09] @unsafe-name-einval !safe(old(t.Name)) ==> isErr(result, linux.EINVAL) && nocalls()
+//@   ensures[C04] @unbound-fid-ebadf safe(old(t.Name)) && !old(has(cs.fids, t.fid)) ==> isErr(result, linux.EBADF) && nocalls()
+//@   ensures[C04] @unbound-dir-ebadf safe(old(t.Name)) && !old(has(cs.fids, t.Directory)) ==> isErr(result, linux.EBADF) && nocalls()
+//@   ensures[C04] @root-einval safe(old(t.Name)) && old(has(cs.fids, t.fid)) && old(has(cs.fids, t.Directory)) && old(cs.fids[t.fid].parent) == nil ==> isErr(result, linux.EINVAL) && nocalls()
+//@   ensures[C08] @fenced-refused safe(old(t.Name)) && old(has(cs.fids, t.fid)) && old(has(cs.fids, t.Directory)) && old(cs.fids[t.fid].parent) != nil && (old(fenced(cs.fids[t.fid])) || old(fenced(cs.fids[t.Directory]))) ==> isErr(result, linux.EINVAL) && nocalls()
+//@   at File.RenameAt requires[C03,C08] @parent-and-current-name recv == old(cs.fids[t.fid].parent).file && arg0 == old(cs.fids[t.fid].parent.pathNode.childRefNames[cs.fids[t.fid]]) && arg1 == old(cs.fids[t.Directory]).file && arg2 == old(t.Name)
+//@   at (*fidRef).renameChildTo requires[C08] @tree-updated-only-after-success ghost("$lasterr", error) == nil && ncalls("File.RenameAt") == old(ncalls("File.RenameAt")) + 1 && recv == old(cs.fids[t.fid].parent) && arg1 == old(cs.fids[t.Directory]) && arg2 == old(t.Name)
